@@ -81,6 +81,10 @@ def run(ctx):
         ctx.violation("spelling", "C19 fails on the real tool (a comparison is attributed to the wrong branch): %s\n\nprogram (package sp, plus a caller passing nil):\n%s\n"
                       "replay: put it in a module, add `func c() { _ = %s(nil) }`, run nilaway.\n" % (b, fn, name))
 
+    # Go-source corpus: regression programs of repaired findings (shadowed true/false/nil; `c == true` with a compound c)
+    from . import markers
+    markers.corpus_modules(ctx, "c19", "comparison spellings of repaired findings")
+
     if not ok or mism:
         wit, why = search(ctx)
         if wit:
